@@ -183,6 +183,10 @@ func runC20(c *ctx) {
 			if r.chance(30) {
 				fields = append(fields, `"NAMESPACE":`+r.pick([]string{`"other"`, `""`, `5`, `"ns-2"`}))
 			}
+			if r.chance(15) {
+				// a user label whose key equals NAMESPACE only when case is ignored: it is ordinary metadata, not the override
+				fields = append(fields, r.pick([]string{`"namespace":"team-a"`, `"Namespace":"team-b"`}))
+			}
 			if r.chance(40) {
 				fields = append(fields, `"CLUSTER_ID":"Kubernetes"`)
 			}
